@@ -420,4 +420,81 @@ theorem fromSparse_core (c0 : Nat × Nat × α) (rest : List (Nat × Nat × α))
   · cases h
   · cases h
 
+/-! ### `set_value`: growth only pads with defaults -/
+
+theorem getD_append_replicate_default (l : List α) (n i : Nat) :
+    (l ++ List.replicate n default).getD i default = l.getD i default := by
+  rw [List.getD_eq_getElem?_getD, List.getD_eq_getElem?_getD]
+  by_cases h : i < l.length
+  · rw [List.getElem?_append_left h]
+  · rw [List.getElem?_append_right (by omega), List.getElem?_replicate, List.getElem?_eq_none (by omega)]
+    split <;> rfl
+
+theorem padRows_getD (w extra k : Nat) (l : List α) (hl : l.length = k * w) (i j : Nat) (hj : j < w + extra) :
+    (padRows w extra k l).getD (i * (w + extra) + j) default =
+      if i < k ∧ j < w then l.getD (i * w + j) default else default := by
+  rw [List.getD_eq_getElem?_getD]
+  by_cases hi : i < k
+  · rw [padRows_get w extra k l hl i j hi hj]
+    by_cases hjw : j < w
+    · simp only [hjw, hi, and_self, if_true, List.getD_eq_getElem?_getD]
+    · simp only [hjw, hi, and_false, if_false, Option.getD_some]
+  · have hge : k * (w + extra) ≤ i * (w + extra) := Nat.mul_le_mul_right _ (by omega)
+    rw [List.getElem?_eq_none (by rw [padRows_length w extra k l hl]; omega)]
+    simp [hi]
+
+theorem new_of_pre (sr sc er ec : Nat) (h : rectPre sr sc er ec) :
+    (new sr sc er ec : Res (Rng α)) = .ok ⟨sr, sc, er, ec, List.replicate ((er - sr + 1) * (ec - sc + 1)) default⟩ := by
+  obtain ⟨h1, h2, h3, h4, h5⟩ := h
+  unfold new
+  rw [if_neg (by omega), if_neg (by omega), if_neg (by omega), if_neg (by omega)]
+
+theorem sparse_fold_ok (rs cs cols len : Nat) : ∀ (cells : List (Nat × Nat × α)) (v : List α),
+    (∀ c ∈ cells, rs ≤ c.1) → ∃ v', cells.foldl (sparseStep rs cs cols len) (.ok v) = .ok v'
+  | [], v, _ => ⟨v, rfl⟩
+  | c :: rest, v, h => by
+    have hc := h c (List.mem_cons_self ..)
+    have hstep : sparseStep rs cs cols len (.ok v) c =
+        .ok (if (c.1 - rs) * cols + (c.2.1 - cs) < len then v.set ((c.1 - rs) * cols + (c.2.1 - cs)) c.2.2 else v) := by
+      simp only [sparseStep, show ¬ c.1 < rs by omega, if_false]; split <;> rfl
+    rw [List.foldl_cons, hstep]
+    exact sparse_fold_ok rs cs cols len rest _ (fun x hx => h x (List.mem_cons_of_mem _ hx))
+
+theorem fromSparse_of_pre (cells : List (Nat × Nat × α)) (h : sparsePre cells) :
+    ∃ r, fromSparse cells = .ok r := by
+  cases cells with
+  | nil => exact ⟨empty, rfl⟩
+  | cons c0 rest =>
+    obtain ⟨h1, h2, h3⟩ := h
+    have hmin := foldMin_spec (c0 :: rest) (U32 - 1)
+    have hmax := foldMax_spec (c0 :: rest) 0
+    unfold fromSparse
+    simp only
+    generalize (c0 :: rest).foldl (fun m c => if c.2.1 < m then c.2.1 else m) (U32 - 1) = cs at *
+    generalize (c0 :: rest).foldl (fun m c => if c.2.1 > m then c.2.1 else m) 0 = ce at *
+    have hc0 := h1 c0 (List.mem_cons_self ..)
+    have hspan : ce - cs + 1 < U32 := by
+      rcases hmax.2.2 with h0 | ⟨c', hc', he⟩
+      · simp only [U32] at *; omega
+      · rcases hmin.2.2 with h0 | ⟨c, hc, hs⟩
+        · have a := hmin.2.1 c0 (List.mem_cons_self ..)
+          have b := h3 c0 (List.mem_cons_self ..) c' hc'
+          simp only [U32] at *; omega
+        · have := h3 c hc c' hc'
+          omega
+    rw [if_neg (by omega), if_neg (by omega), if_neg (by omega)]
+    obtain ⟨v', hv'⟩ := sparse_fold_ok c0.1 cs (ce - cs + 1) ((ce - cs + 1) * (((c0 :: rest).getLast?.getD c0).1 - c0.1 + 1))
+      (c0 :: rest) (List.replicate ((ce - cs + 1) * (((c0 :: rest).getLast?.getD c0).1 - c0.1 + 1)) default)
+      (fun c hc => (h1 c hc).1)
+    rw [hv']; exact ⟨_, rfl⟩
+
+theorem range_of_pre (r : Rng α) (sr sc er ec : Nat) (h : rectPre sr sc er ec) :
+    ∃ r', range r sr sc er ec = .ok r' := by
+  unfold range
+  rw [new_of_pre sr sc er ec h]
+  simp only
+  split
+  · exact ⟨_, rfl⟩
+  · split <;> exact ⟨_, rfl⟩
+
 end Range
